@@ -32,6 +32,31 @@ fn lim() -> Limits {
     Limits { max_answers: 400, budget: 1_500_000 }
 }
 
+/// Constraint set of an answer up to the order of its constraints, the order of the pairs inside
+/// a constraint and the orientation of a pair. None when a constraint mentions a variable that
+/// does not occur in the answer terms (such variables are numbered in reporting order, which is
+/// exactly what may vary: those answers are compared semantically only).
+fn syntactic_cons(a: &Answer) -> Option<Vec<Vec<(crate::ast::Term, crate::ast::Term)>>> {
+    let k = canon::term_var_count(a) as VarId;
+    let mut out = vec![];
+    for c in &a.cons {
+        let mut pairs = vec![];
+        for (x, y) in c {
+            let mut vs = vec![];
+            x.vars(&mut vs);
+            y.vars(&mut vs);
+            if vs.iter().any(|v| *v >= k) {
+                return None;
+            }
+            pairs.push(if x <= y { (x.clone(), y.clone()) } else { (y.clone(), x.clone()) });
+        }
+        pairs.sort();
+        out.push(pairs);
+    }
+    out.sort();
+    Some(out)
+}
+
 fn same_sequence(a: &[Answer], b: &[Answer], u: &canon::Universe) -> Option<usize> {
     if a.len() != b.len() {
         return Some(a.len().min(b.len()));
@@ -43,8 +68,20 @@ fn same_sequence(a: &[Answer], b: &[Answer], u: &canon::Universe) -> Option<usiz
         if canon::equiv(x, y, u) == Cmp::Different {
             return Some(i);
         }
-        // equivalent as sets of ground instances, but the reported constraint *sets* must also
-        // agree up to order: a redundant constraint present in one run only is a difference
+        // The property allows renaming of reified variables and another order of the elements
+        // of a constraint set, nothing else: the reported constraints themselves must be the
+        // same (`!(_0 == _1 && _1 == _2)` in one run and `!(_0 == _2 && _1 == _2)` in the next is
+        // a difference although both denote the same set of ground instances).
+        if x.terms == y.terms {
+            if let (Some(cx), Some(cy)) = (syntactic_cons(x), syntactic_cons(y)) {
+                if cx != cy {
+                    return Some(i);
+                }
+                continue;
+            }
+        }
+        // constraints over variables that do not occur in the terms: at least the number of
+        // reported constraints must agree
         if let (Ok(cx), Ok(cy)) = (canon::normal_cons(x), canon::normal_cons(y)) {
             if cx.len() != cy.len() {
                 return Some(i);
@@ -167,6 +204,171 @@ fn run_det(bytes: &[u8], ctx: &Ctx) -> CaseInfo {
     eval_det(&p, kind, None, ctx)
 }
 
+/// Determinism with one large dimension (hundreds of constraints in the store, hundreds of
+/// clauses, wide finite domains): iteration order of internal hash containers matters most here.
+fn run_det_scale(bytes: &[u8], ctx: &Ctx) -> CaseInfo {
+    let mut s = Source::new(bytes);
+    let (p, kind) = crate::props::scale_mix::any_program(&mut s, ctx.tier == Tier::Thorough);
+    let mut info = eval_det(&p, kind.label(), None, ctx);
+    truncate_sample(&mut info, 400);
+    info
+}
+
+/// Multi-pair disequalities whose pairs share variables (`[a, b] != [b, c]`), re-run by later
+/// unifications: the residual constraint that is reported must not depend on the run.
+fn run_diseq_chains(bytes: &[u8], ctx: &Ctx) -> CaseInfo {
+    let mut s = Source::new(bytes);
+    let nq = 2 + s.below(3);
+    let nfresh = s.below(3);
+    let nv = nq + nfresh;
+    let var = |s: &mut Source| Term::Var(s.below(nv) as VarId);
+    let item = |s: &mut Source| if s.flag(60) { Term::Int(s.range(0, 2)) } else { Term::Var(s.below(nv) as VarId) };
+    let mut inner: Vec<Goal> = vec![];
+    let nd = 1 + s.below(2);
+    for _ in 0..nd {
+        let k = 2 + s.below(3);
+        let left: Vec<Term> = (0..k).map(|_| item(&mut s)).collect();
+        // the right side is the left side shifted by one (a chain) or independent
+        let right: Vec<Term> = if s.flag(150) {
+            let last = item(&mut s);
+            left.iter().skip(1).cloned().chain([last]).collect()
+        } else {
+            (0..k).map(|_| item(&mut s)).collect()
+        };
+        inner.push(Goal::Diseq(Term::list(left), Term::list(right)));
+    }
+    let ne = 1 + s.below(3);
+    for _ in 0..ne {
+        let g = match s.weighted(&[3, 2, 2]) {
+            0 => Goal::Eq(var(&mut s), Term::Int(s.range(0, 2))),
+            1 => Goal::Eq(var(&mut s), var(&mut s)),
+            _ => Goal::Conde(vec![vec![Goal::Eq(var(&mut s), Term::Int(s.range(0, 2)))], vec![Goal::Eq(var(&mut s), var(&mut s))]]),
+        };
+        let at = if s.flag(200) { inner.len() } else { s.below(inner.len() + 1) };
+        inner.insert(at, g);
+    }
+    if nfresh > 0 {
+        // expose the fresh variables through the first query variable, as the last goal
+        let fresh: Vec<VarId> = (nq..nv).map(|v| v as VarId).collect();
+        inner.push(Goal::Eq(Term::Var(0), Term::list(fresh.iter().map(|v| Term::Var(*v)).collect())));
+        inner = vec![Goal::Fresh(fresh, inner)];
+    }
+    let p = Program { nq, body: inner };
+    if std::env::var("PVH_SHOW").is_ok() {
+        eprintln!("SHOW {}", p.show());
+    }
+    let mut info = eval_det(&p, "diseq-chains", None, ctx);
+    // here a single answer with a multi-pair constraint is already interesting
+    if let Some(v) = info.sample.as_ref() {
+        let _ = v;
+    }
+    info.nontrivial = info.nontrivial || p.body.iter().any(|g| g.any(&|x| matches!(x, Goal::Diseq(..))));
+    info
+}
+
+/// A finite-domain branch whose LAST goal is one unification binding two or three domain
+/// variables at once (`[p, w] == [r, a]`), next to a sibling branch that produces answers at the
+/// same time: the order in which the new bindings are processed decides how much is pruned before
+/// labeling, hence the number of steps, hence the interleaving with the sibling.
+fn run_fd_multi(bytes: &[u8], ctx: &Ctx) -> CaseInfo {
+    use crate::ast::FdGoal;
+    let mut s = Source::new(bytes);
+    let nfd = 4 + s.below(3);
+    // variable ids: q0 is the query variable, fd variables 1..=nfd, m = nfd + 1
+    let fv = |i: usize| Term::Var((1 + i) as VarId);
+    let mut a: Vec<Goal> = vec![];
+    // domains: a common one, then a few narrower ones
+    a.push(Goal::Fd(FdGoal::InFdRange(Term::list((0..nfd).map(fv).collect()), 0, 4)));
+    let nn = s.below(3);
+    for _ in 0..nn {
+        let lo = s.range(0, 3);
+        let hi = s.range(lo, 4);
+        let which = if s.flag(128) { nfd - 1 } else { s.below(nfd) };
+        a.push(Goal::Fd(FdGoal::InFdRange(fv(which), lo, hi)));
+    }
+    let structured = s.flag(150);
+    let mut extra_fresh = 0usize;
+    if structured {
+        // a chain of constraints v0 - v1 - ... - vk posted along or against the direction in
+        // which a bound will travel, and a final unification that aliases one end of the chain
+        // with a variable of a narrower domain while binding another pair as well
+        let k = 2 + s.below(2);
+        let mut links: Vec<Goal> = (0..k)
+            .map(|i| {
+                let (x, y) = (fv(i + 1), fv(i));
+                match s.weighted(&[4, 2, 2]) {
+                    0 => Goal::Fd(FdGoal::Lte(x, y)),
+                    1 => Goal::Fd(FdGoal::Lt(x, y)),
+                    _ => Goal::Fd(FdGoal::Plus(x, Term::Int(s.range(0, 1)), y)),
+                }
+            })
+            .collect();
+        if s.flag(128) {
+            links.reverse();
+        }
+        a.extend(links);
+        // exposed: the chain (first variables first: they are labeled first)
+        let ne = 2 + s.below(3);
+        let mut shown: Vec<Term> = (0..ne.min(k + 1)).map(fv).collect();
+        if s.flag(100) {
+            shown.reverse();
+        }
+        shown.push(fv(nfd - 1));
+        a.push(Goal::Eq(Term::Var(0), Term::list(shown)));
+        // the other variables: nfd-1, nfd-2 (.. nfd >= 4, k <= 3 so at least one is off the chain)
+        let end = if s.flag(170) { fv(k) } else { fv(0) };
+        let narrow = fv(nfd - 1);
+        let other = (fv(nfd - 2), if s.flag(128) { fv(s.below(nfd)) } else { Term::Int(s.range(0, 4)) });
+        let mut pairs = vec![(narrow, end), other];
+        if s.flag(128) {
+            pairs.reverse();
+        }
+        if s.flag(128) {
+            pairs = pairs.into_iter().map(|(x, y)| (y, x)).collect();
+        }
+        // further pairs that bind variables WITHOUT a domain in the same unification (the
+        // extension may then be larger than the domain store)
+        let nx = s.below(8);
+        for i in 0..nx {
+            let e = Term::Var((nfd + 2 + i) as VarId);
+            let at = s.below(pairs.len() + 1);
+            pairs.insert(at, (e, Term::Int(s.range(0, 4))));
+        }
+        extra_fresh = nx;
+        a.push(Goal::Eq(Term::list(pairs.iter().map(|p| p.0.clone()).collect()), Term::list(pairs.iter().map(|p| p.1.clone()).collect())));
+    } else {
+        let nc = 1 + s.below(4);
+        for _ in 0..nc {
+            let (x, y) = (fv(s.below(nfd)), fv(s.below(nfd)));
+            a.push(match s.weighted(&[4, 2, 2, 1]) {
+                0 => Goal::Fd(FdGoal::Lte(x, y)),
+                1 => Goal::Fd(FdGoal::Lt(x, y)),
+                2 => Goal::Fd(FdGoal::Plus(x, Term::Int(s.range(0, 2)), y)),
+                _ => Goal::Fd(FdGoal::Diseq(x, y)),
+            });
+        }
+        // expose some of the variables
+        let ne = 2 + s.below(3);
+        a.push(Goal::Eq(Term::Var(0), Term::list((0..ne).map(|_| fv(s.below(nfd))).collect())));
+        // the multi-binding unification, last
+        let np = 2 + s.below(2);
+        let left: Vec<Term> = (0..np).map(|_| fv(s.below(nfd))).collect();
+        let right: Vec<Term> = (0..np).map(|_| if s.flag(40) { Term::Int(s.range(0, 4)) } else { fv(s.below(nfd)) }).collect();
+        a.push(Goal::Eq(Term::list(left), Term::list(right)));
+    }
+    let mut fresh_a: Vec<VarId> = (1..=nfd as VarId).collect();
+    fresh_a.extend((0..extra_fresh).map(|i| (nfd + 2 + i) as VarId));
+    let m = (nfd + 1) as VarId;
+    let nsib = 5 + s.below(20);
+    let b = vec![Goal::Fresh(vec![m], vec![Goal::Call(Rel::Member, vec![Term::Var(m), Term::ints(&(100..100 + nsib as i64).collect::<Vec<i64>>())]), Goal::Eq(Term::Var(0), Term::list(vec![Term::Var(m)]))])];
+    let clauses = if s.flag(128) { vec![vec![Goal::Fresh(fresh_a, a)], b] } else { vec![b, vec![Goal::Fresh(fresh_a, a)]] };
+    let p = Program { nq: 1, body: vec![Goal::Conde(clauses)] };
+    if std::env::var("PVH_SHOW").is_ok() {
+        eprintln!("SHOW {}", p.show());
+    }
+    eval_det(&p, "fd-multi-binding", None, ctx)
+}
+
 fn run_cross(bytes: &[u8], ctx: &Ctx) -> CaseInfo {
     let mut s = Source::new(bytes);
     let (p, kind) = decode(&mut s);
@@ -245,6 +447,9 @@ pub fn def() -> PropertyDef {
             Family { name: "determinism", max_len: 200, quick: 60_000, thorough: 1_500_000, run: run_det },
             Family { name: "cross-process", max_len: 200, quick: 1_600, thorough: 30_000, run: run_cross },
             Family { name: "laziness", max_len: 32, quick: 20_000, thorough: 300_000, run: run_lazy },
+            Family { name: "determinism-scale", max_len: 96, quick: 3_000, thorough: 40_000, run: run_det_scale },
+            Family { name: "diseq-chains", max_len: 64, quick: 30_000, thorough: 600_000, run: run_diseq_chains },
+            Family { name: "fd-multi-binding", max_len: 64, quick: 60_000, thorough: 400_000, run: run_fd_multi },
         ],
         fixed: vec![],
         witnesses: vec![],
